@@ -284,6 +284,11 @@ CONC_CASES = {
     'fresh-activate-vs-assigns': [[['assign', 'm', 'value', 1.5], ['assign', 'm', 'x', 7], ['assign', 'm', 'value', 2.5]], [['req', 'activate']]],
     'fresh-activate-module-vs-assigns': [[['assign', 'm', 'value', 1.5], ['assign', 'm', 'value', 2.5]], [['req', 'activate m']]],
     'rejoin-vs-assigns': [[['assign', 'm', 'value', 1.5], ['assign', 'm', 'value', 2.5]], [['req', 'deactivate'], ['req', 'activate']]],
+    # scopes of one connection whose names are string prefixes of each other: dropping one must not drop the other
+    'fresh-prefix-scopes-vs-assigns': [[['assign', 'm', 'x2', 5], ['assign', 'm', 'x', 3], ['assign', 'm', 'x2', 6]],
+                                       [['req', 'activate m:_x'], ['req', 'activate m:_x2'], ['req', 'deactivate m:_x']]],
+    'fresh-prefix-scopes-reversed': [[['assign', 'm', 'x', 3], ['assign', 'm', 'x2', 5], ['assign', 'm', 'x', 4]],
+                                     [['req', 'activate m:_x2'], ['req', 'activate m:_x'], ['req', 'deactivate m:_x2']]],
 }
 CONC_READS = {
     'default': {'m': {'x': [11, 12], 'value': [9.5, 8.5]}},
@@ -296,7 +301,8 @@ def conc_cases(tier):
     for name, threads in CONC_CASES.items():
         res.append({'kind': 'conc', 'name': name, 'threads': threads, 'level': 'sync', 'bound': 2 if tier == 'quick' else 3})
         if tier == 'thorough' or name in ('two-assign', 'recover-equal', 'read-write-assign', 'reassign-current-vs-change',
-                                          'fresh-activate-vs-assigns', 'fresh-activate-module-vs-assigns', 'rejoin-vs-assigns'):
+                                          'fresh-activate-vs-assigns', 'fresh-activate-module-vs-assigns', 'rejoin-vs-assigns',
+                                          'fresh-prefix-scopes-vs-assigns'):
             res.append({'kind': 'conc', 'name': name + '/line', 'threads': threads, 'level': 'line',
                         'bound': 2 if tier != 'quick' or name == 'fresh-activate-module-vs-assigns' else 1})
     return res
@@ -314,7 +320,7 @@ def conc_execute(case, prefix):
     reads = {m: {p: [HardwareError('readfail') if v == 'EXC' else v for v in vs] for p, vs in d.items()} for m, d in reads.items()}
 
     def body():
-        node = N.build_node(sched, reads)
+        node = N.build_node(sched, reads, classes={'m': N.MP} if 'prefix' in case['name'] else None)
         holder['node'] = node
         obs = N.ObserverConn(sched, 'c3')
         node.dispatcher.add_connection(obs)
@@ -327,7 +333,8 @@ def conc_execute(case, prefix):
         holder['other'] = other
         if any(op[0] == 'req' for ops in case['threads'] for op in ops):
             node.dispatcher.add_connection(other)
-            if not case['name'].startswith('fresh-'):
+            holder['fresh'] = case['name'].startswith('fresh-')
+            if not holder['fresh']:
                 node.request_msg(other, ('activate', None, None))
                 other.lines.clear()
         sched.log.append(('init', N.current_cache(node)))
@@ -385,9 +392,16 @@ def conc_judge(sched, x, holder):
             viol.append(('conc:last-message-differs-from-cache', f'{p}: last message {last} but the cache holds {final[p]}'))
     # the connection that (re)activated meanwhile: the last message it holds for every parameter equals the cache
     reqs = [op[1] for ops in holder.get('threads', []) for op in ops if op[0] == 'req']
-    if reqs and reqs[-1].startswith('activate'):
+    from vf.harness.c08 import RefTable
+    table = RefTable()
+    table.glob = bool(reqs) and not holder.get('fresh')       # (it was globally active before the threads started unless 'fresh')
+    for r in reqs:
+        table.apply(r)
+    if reqs and (table.glob or table.scopes):
         other = holder['other']
         for p in init:
+            if not table.subscribed(p):
+                continue
             got = [k[2] for k in (N.msg_key(l) for l in other.lines) if k[0] == 'update' and k[1] == p]
             if not got:
                 viol.append(('conc:activating-connection:no-message-for-a-parameter-in-scope', f'{p}: nothing received; cache {final[p]}'))
